@@ -22,6 +22,7 @@ transforms:
     enwalrus    `x = E` + `if x ...` -> `if (x := E) ...`
     swapcmp     `a < b` -> `b > a` on simple operands
     anyloop     `if any(P for v in IT)` -> flag loop with break, then `if flag`
+    extractcond `if a and b:` -> `if _mm_cond_K(locals...)` with a module-level private predicate helper
     matchtoif   `match S:` over value patterns -> `_m_mm = S; if _m_mm == V1: ... elif ...`
 """
 
@@ -548,7 +549,75 @@ class AnyToLoop(ast.NodeTransformer):
     visit_AsyncFunctionDef = visit_FunctionDef
 
 
-TRANSFORMS = {"enwalrus": EnWalrus, "swapcmp": SwapCmp, "anyloop": AnyToLoop, "matchtoif": MatchToIf, "tmpreturn": TmpReturn, "returnelse": ReturnElse, "guardclause": GuardClause, "ifexp": IfExpToStmt, "compr": ComprToLoop, "identity": None, "rename": Rename, "invert": Invert, "nest": Nest, "dewalrus": DeWalrus, "demorgan": DeMorgan}
+class ExtractCond(ast.NodeTransformer):
+    """`if TEST:` inside a function, TEST a boolean combination (and / or / not) with at least two operands  ->
+    `if _mm_cond_K(<locals TEST reads>):` with a module-level private helper `def _mm_cond_K(...): return TEST`.
+    Skipped when TEST binds names (walrus), awaits, yields, uses lambdas / comprehensions (scoping), or mentions
+    double-underscore attributes (class-private name mangling)."""
+
+    def visit_Module(self, node: ast.Module):
+        self.helpers: list[ast.FunctionDef] = []
+        self.k = 0
+        node.body = [self._top(s) for s in node.body]
+        # helpers go after the last import / docstring so that module globals they read are defined when they run
+        node.body = node.body + self.helpers
+        return node
+
+    def _top(self, st):
+        if isinstance(st, (ast.FunctionDef, ast.AsyncFunctionDef)):
+            return self._func(st)
+        if isinstance(st, ast.ClassDef):
+            st.body = [self._top(x) for x in st.body]
+        return st
+
+    def _func(self, fn):
+        if any(isinstance(n, (ast.FunctionDef, ast.AsyncFunctionDef, ast.ClassDef, ast.Lambda)) for n in ast.walk(fn) if n is not fn):
+            return fn
+        a = fn.args
+        locals_ = {x.arg for x in a.posonlyargs + a.args + a.kwonlyargs} | ({a.vararg.arg} if a.vararg else set()) | ({a.kwarg.arg} if a.kwarg else set())
+        for n in ast.walk(fn):
+            if isinstance(n, ast.Name) and isinstance(n.ctx, (ast.Store, ast.Del)):
+                locals_.add(n.id)
+            if isinstance(n, ast.ExceptHandler) and n.name:
+                locals_.add(n.name)
+            if isinstance(n, (ast.MatchAs, ast.MatchStar)) and n.name:
+                locals_.add(n.name)
+            if isinstance(n, (ast.Global, ast.Nonlocal)):
+                return fn
+            if isinstance(n, (ast.Import, ast.ImportFrom)):
+                for al in n.names:
+                    locals_.add((al.asname or al.name).split(".")[0])
+        outer = self
+
+        class T(ast.NodeTransformer):
+            def visit_If(self, node: ast.If):
+                self.generic_visit(node)
+                t = node.test
+                if not isinstance(t, ast.BoolOp) or len(t.values) < 2:
+                    return node
+                for x in ast.walk(t):
+                    if isinstance(x, (ast.NamedExpr, ast.Await, ast.Yield, ast.YieldFrom, ast.Lambda, ast.ListComp, ast.SetComp, ast.DictComp, ast.GeneratorExp)):
+                        return node
+                    if isinstance(x, ast.Attribute) and x.attr.startswith("__") and not x.attr.endswith("__"):
+                        return node
+                    if isinstance(x, ast.Name) and x.id.startswith("__") and not x.id.endswith("__"):
+                        return node
+                used = []
+                for x in ast.walk(t):
+                    if isinstance(x, ast.Name) and x.id in locals_ and x.id not in used:
+                        used.append(x.id)
+                outer.k += 1
+                name = f"_mm_cond_{outer.k}"
+                helper = ast.FunctionDef(name=name, args=ast.arguments(posonlyargs=[], args=[ast.arg(arg=u) for u in used], kwonlyargs=[], kw_defaults=[], defaults=[]), body=[ast.Return(value=t)], decorator_list=[], lineno=node.lineno, col_offset=0)
+                outer.helpers.append(helper)
+                node.test = ast.copy_location(ast.Call(func=ast.Name(id=name, ctx=ast.Load()), args=[ast.Name(id=u, ctx=ast.Load()) for u in used], keywords=[]), t)
+                return node
+
+        fn.body = [T().visit(s) for s in fn.body]
+        return fn
+
+
+TRANSFORMS = {"extractcond": ExtractCond, "enwalrus": EnWalrus, "swapcmp": SwapCmp, "anyloop": AnyToLoop, "matchtoif": MatchToIf, "tmpreturn": TmpReturn, "returnelse": ReturnElse, "guardclause": GuardClause, "ifexp": IfExpToStmt, "compr": ComprToLoop, "identity": None, "rename": Rename, "invert": Invert, "nest": Nest, "dewalrus": DeWalrus, "demorgan": DeMorgan}
 
 
 
